@@ -70,6 +70,9 @@ enum Case {
     /// h1 encoder header writer: initial buffer (len, capacity), header (name len, value len) list
     #[serde(rename = "enc")]
     Enc { dlen: usize, cap: usize, hdrs: Vec<(usize, usize)>, camel: bool },
+    /// h1 head phase: request (h1::Codec) or response (h1::ClientCodec) head bytes (run-length hex)
+    #[serde(rename = "head")]
+    Head { resp: bool, data: String },
     /// exploration: entry point, input bytes (run-length hex), segmentation, parameters
     #[serde(rename = "x")]
     X {
@@ -196,9 +199,25 @@ fn emit_typed(em: &mut Emitter, id: String, c: &Case) {
             });
             (coq, r, Box::new(|v: &V| v.show() != "enc(0)"))
         }
+        Case::Head { resp, data } => {
+            let b = unrle(data);
+            tags.push(format!("core:h1-head-phase-{}", if *resp { "response" } else { "request" }));
+            tags.push(format!("size:{}", size_tag(b.len())));
+            let resp = *resp;
+            let mut coq = String::new();
+            let r = guarded(|| {
+                let (c, v, verdict) = typed::run_head(resp, &b);
+                coq = c;
+                (Some(v), verdict)
+            });
+            (coq, r, Box::new(|v: &V| v.show().contains("ok(")))
+        }
         Case::X { .. } => unreachable!(),
     };
     let mut out = CaseOut { id, input, coq_case: Some(coq_case), ..Default::default() };
+    if out.coq_case.as_deref() == Some("") {
+        out.coq_case = None; // the runner panicked before the case term was built
+    }
     match res {
         Ok((Some(v), verdict)) => {
             out.expect = Some(v.coq());
@@ -206,7 +225,11 @@ fn emit_typed(em: &mut Emitter, id: String, c: &Case) {
             out.oracle_ok = verdict.is_ok();
             out.oracle_why = verdict.err().unwrap_or_default();
             out.nontrivial = nontrivial(&v);
-            tags.push(format!("result:{}", match &v { V::T(t, _) => *t, _ => "value" }));
+            tags.push(format!("result:{}", match &v {
+                V::T("head", a) => match a.get(1) { Some(V::T(t, _)) => *t, _ => "head" },
+                V::T(t, _) => *t,
+                _ => "value",
+            }));
         }
         Ok((None, _)) => {
             // not a legal header value: the input cannot reach the function; not model-evaluated
@@ -824,6 +847,87 @@ fn gen_h1_bytes(rng: &mut Rng, base: &[u8]) -> (Vec<u8>, Vec<&'static str>) {
     }
 }
 
+
+/// head-phase cases: field names of 65534 / 65535 / 65536 / 100000 bytes, 95..98 header lines
+/// (MAX_HEADERS = 96), templates and their mutations, partial heads up to the buffer limit
+fn gen_head(rng: &mut Rng, i: usize) -> Case {
+    let resp = rng.chance(2, 5);
+    let start: &[u8] = if resp { b"HTTP/1.1 200 OK\r\n" } else { b"GET /p/a/1?x=1 HTTP/1.1\r\n" };
+    let line = |rng: &mut Rng| -> Vec<u8> {
+        let (name, vals) = *rng.pick(HDR_VALUES);
+        format!("{}: {}\r\n", name, rng.pick(vals)).into_bytes()
+    };
+    let data: Vec<u8> = match i % 12 {
+        0 | 1 => {
+            // one long field name among ordinary headers
+            let n = if i % 24 < 12 { *rng.pick(&[65534usize, 65535, 65536]) } else { *rng.pick(&[65535usize, 65536, 100000]) };
+            let mut v = start.to_vec();
+            if rng.chance(1, 2) {
+                v.extend(line(rng));
+            }
+            v.extend(std::iter::repeat(*rng.pick(b"aZ-9")).take(n));
+            v.extend_from_slice(b": x\r\n");
+            if rng.chance(1, 2) {
+                v.extend(line(rng));
+            }
+            v.extend_from_slice(b"\r\n");
+            v
+        }
+        2 | 3 => {
+            // MAX_HEADERS boundary
+            let n = *rng.pick(&[1usize, 95, 96, 96, 97, 98]);
+            let mut v = start.to_vec();
+            for k in 0..n {
+                if rng.chance(1, 8) {
+                    v.extend(line(rng));
+                } else {
+                    v.extend_from_slice(format!("x-h{}: {}\r\n", k % 7, k).as_bytes());
+                }
+            }
+            v.extend_from_slice(b"\r\n");
+            v
+        }
+        4 => {
+            // unfinished head around the buffer limit (131072)
+            let n = *rng.pick(&[1000usize, 131000, 131071, 131072, 140000]);
+            let mut v = start.to_vec();
+            v.extend_from_slice(b"x-long: ");
+            v.extend(std::iter::repeat(b'v').take(n.saturating_sub(v.len())));
+            v
+        }
+        5 | 6 | 7 => {
+            // framing-relevant headers of set_headers in valid and conflicting combinations
+            let mut v = if resp { start.to_vec() } else { rng.pick(&[&b"POST /body HTTP/1.1\r\n"[..], b"POST /body HTTP/1.0\r\n", b"GET / HTTP/1.1\r\n", b"CONNECT h:1 HTTP/1.1\r\n", b"GET * HTTP/1.1\r\n", b"G\x7fT / HTTP/1.1\r\n"]).to_vec() };
+            if resp {
+                v = rng.pick(&[&b"HTTP/1.1 200 OK\r\n"[..], b"HTTP/1.0 200 OK\r\n", b"HTTP/1.1 101 Switching Protocols\r\n", b"HTTP/1.1 099 Low\r\n", b"HTTP/1.1 204 \r\n"]).to_vec();
+            }
+            for _ in 0..rng.range(0, 4) {
+                v.extend_from_slice(*rng.pick(&[
+                    &b"Content-Length: 5\r\n"[..], b"content-length: 0\r\n", b"Content-Length: +5\r\n", b"Content-Length:  7 \r\n", b"Content-Length: 18446744073709551616\r\n",
+                    b"Content-Length: \xe9\r\n", b"Transfer-Encoding: chunked\r\n", b"Transfer-Encoding:  ChUnKeD \r\n", b"transfer-encoding: identity\r\n", b"Transfer-Encoding: gzip\r\n",
+                    b"Upgrade: websocket\r\n", b"Upgrade: \x80\r\n", b"Connection: upgrade\r\n", b"Expect: 100-continue\r\n", b"Expect: 10\r\n", b"Expect: 100-\r\n", b"Host: h\r\n",
+                ]));
+            }
+            v.extend_from_slice(b"\r\n");
+            v
+        }
+        8 | 9 => {
+            let base = if resp { rng.pick(CLIENT_RESPS).to_vec() } else { rng.pick(H1_REQS).to_vec() };
+            base
+        }
+        _ => {
+            let base = if resp { rng.pick(CLIENT_RESPS).to_vec() } else { rng.pick(H1_REQS).to_vec() };
+            let (mut v, _) = gen_h1_bytes(rng, &base);
+            // keep the model-evaluated buffers small unless they are runs
+            if v.len() > 150_000 {
+                v.truncate(150_000);
+            }
+            v
+        }
+    };
+    Case::Head { resp, data: rle(&data) }
+}
+
 fn generate(rng: &mut Rng, em: &mut Emitter, factor: f64) {
     let cnt = |base: usize| ((base as f64) * factor).ceil() as usize;
     let mut idx = 0usize;
@@ -847,6 +951,10 @@ fn generate(rng: &mut Rng, em: &mut Emitter, factor: f64) {
     for _ in 0..cnt(50) {
         let mut r = rng.fork();
         emit_case(em, next_id("enc"), &gen_enc(&mut r));
+    }
+    for i in 0..cnt(150) {
+        let mut r = rng.fork();
+        emit_case(em, next_id("head"), &gen_head(&mut r, i));
     }
     // ---- exploration
     for _ in 0..cnt(700) {
@@ -1010,9 +1118,9 @@ fn main() {
     }
     if args.case.is_none() {
         let mut rng = Rng::new(args.seed);
-        // --n = approximate total number of generated cases (default 7580 quick, x6 thorough)
+        // --n = approximate total number of generated cases (default 7730 quick, x6 thorough)
         let factor = match args.n {
-            Some(n) => n as f64 / 7580.0,
+            Some(n) => n as f64 / 7730.0,
             None => {
                 if args.thorough() {
                     6.0
